@@ -85,9 +85,13 @@ impl Mom {
 }
 /// the bound B for the population co-moment / n (see module doc); multiply by n/(n−1) for the sample version
 fn bound(a: &Mom, b: &Mom) -> f64 {
+    bound_nofloor(a, b) + 1e-300
+}
+/// B itself, without the absolute floor (the subnormal family states its own underflow allowance)
+fn bound_nofloor(a: &Mom, b: &Mom) -> f64 {
     let nu = a.n as f64 * U;
     let (sx, sy, mx, my) = (a.sd_pop(), b.sd_pop(), a.mu(), b.mu());
-    C * (nu * sx * sy + nu * (sx * my + sy * mx) + nu * nu * mx * my) + 1e-300
+    C * (nu * sx * sy + nu * (sx * my + sy * mx) + nu * nu * mx * my)
 }
 /// DESIGN's original formula c·n·ε·(σ² + ε·μ²), recorded for comparison only
 fn design_bound(a: &Mom, b: &Mom) -> f64 {
@@ -991,19 +995,25 @@ fn structured_edges(rng: &mut Rng, kind: usize) -> Vec<f64> {
 
 fn hist_structured(rng: &mut Rng, rep: &mut Report, kind: usize) {
     let edges = structured_edges(rng, kind);
-    let nb = edges.len() - 1;
     let regime = format!("structured:{}", STRUCTURED_EDGES[kind]);
+    hist_check_edges(rep, &regime, &edges, "hist-structured", "worst_ratio.hist_bin_centers.structured");
+}
+
+/// bin centres of one edge vector against (e_i + e_{i+1})/2 in double-double, 2 ulp of the larger edge magnitude
+/// (one ulp is 2^-1074 everywhere below 2^-1022)
+fn hist_check_edges(rep: &mut Report, regime: &str, edges: &[f64], hash_tag: &str, note: &str) {
+    let nb = edges.len() - 1;
     rep.case(&format!("hist:{}", regime));
-    rep.distinct(Hasher::new().s("hist-structured").fs(&edges).finish(), nb >= 2);
-    let got = guard(|| st::hist_bin_centers(&edges).v.clone());
+    rep.distinct(Hasher::new().s(hash_tag).fs(edges).finish(), nb >= 2);
+    let got = guard(|| st::hist_bin_centers(edges).v.clone());
     rep.note_add("library_calls", 1.0);
-    let ctx = |obs: Value, extra: Value| json!({"edges": jf(&edges), "n_edges": nb + 1, "observed": obs, "detail": extra});
+    let ctx = |obs: Value, extra: Value| json!({"edges": jf(edges), "n_edges": nb + 1, "observed": obs, "detail": extra});
     match got {
         Err(msg) => {
-            rep.check("C08.hist_bin_centers.no_panic", &regime, false, || ctx(json!({"panic": msg}), json!(null)));
+            rep.check("C08.hist_bin_centers.no_panic", regime, false, || ctx(json!({"panic": msg}), json!(null)));
         }
         Ok(v) => {
-            if !rep.check("C08.hist_bin_centers.len", &regime, v.len() == nb, || ctx(jf(&v), json!({"expected_len": nb, "returned_len": v.len()}))) {
+            if !rep.check("C08.hist_bin_centers.len", regime, v.len() == nb, || ctx(jf(&v), json!({"expected_len": nb, "returned_len": v.len()}))) {
                 return;
             }
             let mut worst = 0.0f64;
@@ -1017,8 +1027,8 @@ fn hist_structured(rng: &mut Rng, rep: &mut Report, kind: usize) {
                     first_bad = Some((i, v[i], want));
                 }
             }
-            rep.note_max("worst_ratio.hist_bin_centers.structured", worst);
-            rep.check("C08.hist_bin_centers", &regime, first_bad.is_none(), || {
+            rep.note_max(note, worst);
+            rep.check("C08.hist_bin_centers", regime, first_bad.is_none(), || {
                 let (i, o, w) = first_bad.unwrap();
                 ctx(jf(&v), json!({"first_wrong_bin": i, "observed_centre": jnum(o), "expected_centre": w, "bin": [edges[i], edges[i + 1]], "worst_err_over_tol": jnum(worst)}))
             });
@@ -1091,8 +1101,354 @@ fn block_edge(rng: &mut Rng, rep: &mut Report, n: usize, label: &str, off: &str)
     check_pair_in(rep, &tag, &x, &y, Some(&tag));
 }
 
+
+// ---------------------------------------------------------------------------------------------
+// data containing subnormal values
+//
+// "all finite data vectors": the finite doubles include the subnormal ones, 5e-324 .. 2.2250738585072009e-308
+// of either sign (an underflowed likelihood, importance weight, far-tail density or p-value on its way to 0).
+// They are ordinary data: a subnormal observation counts in n, moves the mean, can be the extreme.
+// Four single-vector classes — all-subnormal, subnormal + signed zeros, subnormal + the smallest normal numbers
+// (up to 2^-1012), subnormal values inside ordinary data — and pairs built from them (tiny x tiny, tiny x ordinary
+// in either order, tiny x large (1e20..1e100), mixed x mixed), plus bin edges in and across the subnormal range.
+//
+// Oracle. Data that contain ordinary values go through `check_single` / `check_pair_in` unchanged (double-double
+// reference, bound B; the subnormal entries are then far below B, but an observation that is dropped or
+// miscounted changes the statistic by O(1/n) of itself). For "tiny" data (every |x| < 2^-1000) the reference is
+// computed on the data multiplied by 2^700 — an exact map onto normal numbers whose squares are normal too — and the
+// library's value is multiplied by the same power before the comparison, so the reference itself never underflows.
+// Tolerance = B (without its 1e-300 floor) + an absolute UNDERFLOW ALLOWANCE: every operation whose result is
+// subnormal (or underflows to 0) commits an absolute error of at most half an ulp of the smallest subnormal,
+// d = 2^-1074, instead of a relative one. Per statistic, in units of d:
+//   mean (sum / n)              2        (the sum of subnormals is exact, the division rounds once)
+//   welford_mean                n/2 + 2  (n updates mean += delta/k, each rounded by <= d/2; the error of step j is
+//                                         carried with weight j/n)
+//   var / sample_var            4n       (every product of two tiny deviations is below d/2 and rounds to 0: the
+//                                         true variance, < 2^-2000, is not representable; a result of a few d is tolerated)
+//   covariance, 4 algorithms    4n (1 + rx + ry),  rx = max|x_i - mean x|, ry likewise: a running mean of tiny data is
+//                                         off by <= n d/4, that error is multiplied by deviations of the other
+//                                         variable (<= ry), there are n such terms and one division by n-1; the
+//                                         n products themselves round by <= d/2 each
+//   std                         through the variance tolerance, as everywhere else (min(b/sd, sqrt b))
+// min / max / argmin / argmax are exact at every magnitude. The agreement of the covariance algorithms is asserted
+// on the library's own outputs within twice that tolerance.
+
+/// the smallest positive subnormal = one ulp everywhere below 2^-1022
+const D_MIN: f64 = 5e-324;
+/// tiny data are judged after multiplication by 2^TINY_K
+const TINY_K: i32 = 700;
+/// |x| below this for every element: "tiny" data
+const TINY_MAX: f64 = 9.332636185032189e-302; // 2^-1000
+
+const SUB_CLASSES: [&str; 4] = ["all-subnormal", "subnormal+zeros", "subnormal+min-normal", "subnormal+ordinary"];
+const SUB_PAIR_CLASSES: [&str; 6] = ["tiny*tiny", "tiny*ordinary", "ordinary*tiny", "tiny*large", "mixed*mixed", "mixed*tiny"];
+
+fn is_subnormal(v: f64) -> bool {
+    v != 0.0 && v.abs() < f64::MIN_POSITIVE
+}
+
+/// one subnormal magnitude k * 2^-1074, k in 1..2^52
+fn subnormal_mag(rng: &mut Rng) -> f64 {
+    match rng.usize(0, 9) {
+        0 => D_MIN,
+        1 => f64::MIN_POSITIVE.next_down(),
+        2 => rng.int(1, 8) as f64 * D_MIN,
+        3 => (2.0f64).powi(-(rng.int(1023, 1074) as i32)),
+        4 => 1e-310 * rng.range(0.1, 10.0),
+        _ => rng.log_range(1.0, 4.5e15).floor() * D_MIN,
+    }
+}
+
+fn gen_tiny(rng: &mut Rng, class: &str, n: usize) -> Vec<f64> {
+    // sign pattern: both signs, or one sign (then the mean is as large as the data)
+    let signs = rng.usize(0, 2);
+    let sg = |rng: &mut Rng| match signs {
+        0 => if rng.bool() { 1.0 } else { -1.0 },
+        1 => 1.0,
+        _ => -1.0,
+    };
+    // magnitudes: the whole subnormal range, a narrow band next to a base value (an "offset" in the subnormal
+    // range), or the very first multiples of 2^-1074
+    let style = rng.usize(0, 3);
+    let base = rng.log_range(1e3, 4.0e15).floor();
+    let mut x: Vec<f64> = (0..n)
+        .map(|_| {
+            let m = match style {
+                0 | 1 => subnormal_mag(rng),
+                2 => (base + rng.int(-500, 500) as f64) * D_MIN,
+                _ => rng.int(1, 8) as f64 * D_MIN,
+            };
+            m * sg(rng)
+        })
+        .collect();
+    match class {
+        "subnormal+zeros" => {
+            let q = rng.range(0.1, 0.7);
+            for v in x.iter_mut() {
+                if rng.chance(q) {
+                    *v = if rng.bool() { 0.0 } else { -0.0 };
+                }
+            }
+            let i = rng.usize(0, n - 1);
+            x[i] = 0.0;
+            if n > 1 {
+                let j = (i + 1 + rng.usize(0, n - 2)) % n;
+                x[j] = subnormal_mag(rng) * sg(rng);
+            }
+        }
+        "subnormal+min-normal" => {
+            let q = rng.range(0.1, 0.7);
+            for v in x.iter_mut() {
+                if rng.chance(q) {
+                    *v = f64::MIN_POSITIVE * rng.log_range(1.0, 1000.0) * sg(rng);
+                }
+            }
+            let i = rng.usize(0, n - 1);
+            x[i] = f64::MIN_POSITIVE * sg(rng);
+            if n > 1 {
+                let j = (i + 1 + rng.usize(0, n - 2)) % n;
+                x[j] = subnormal_mag(rng) * sg(rng);
+            }
+        }
+        _ => {}
+    }
+    x
+}
+
+/// ordinary data (one of the main classes) in which a fraction of the entries (at least one) is subnormal or zero
+fn gen_sub_in_ordinary(rng: &mut Rng, n: usize) -> Vec<f64> {
+    let base = *rng.choose(&["gaussian", "small-int", "ties", "sorted", "gaussian"]);
+    let mut x = gen_data(rng, base, n);
+    let q = if rng.bool() { 1.5 / n as f64 } else { rng.range(0.05, 0.6) };
+    for v in x.iter_mut() {
+        if rng.chance(q) {
+            *v = match rng.usize(0, 5) {
+                0 => 0.0,
+                _ => subnormal_mag(rng) * if rng.bool() { 1.0 } else { -1.0 },
+            };
+        }
+    }
+    let i = rng.usize(0, n - 1);
+    x[i] = subnormal_mag(rng) * if rng.bool() { 1.0 } else { -1.0 };
+    x
+}
+
+fn gen_sub_data(rng: &mut Rng, class: &str, n: usize) -> Vec<f64> {
+    if class == "subnormal+ordinary" {
+        gen_sub_in_ordinary(rng, n)
+    } else {
+        gen_tiny(rng, class, n)
+    }
+}
+
+fn max_dev(z: &[f64], m: &Mom) -> f64 {
+    z.iter().fold(0.0f64, |a, &v| a.max((Dd::new(v) - m.mean).f().abs()))
+}
+
+/// every single-vector statistic of tiny data (all |x| < 2^-1000) through the three APIs
+fn check_tiny_single(rep: &mut Report, class: &str, x: &[f64], rng: &mut Rng) {
+    let n = x.len();
+    let nf = n as f64;
+    let s = (2.0f64).powi(TINY_K);
+    let z: Vec<f64> = x.iter().map(|&v| v * s).collect(); // exact
+    let m = moments(&z, false);
+    let (d1, d2) = (D_MIN * s, D_MIN * s * s); // 2^-1074 in the scaled units of degree-1 / degree-2 statistics
+    let mean_tol = 8.0 * nf * U * m.max_abs + 2.0 * d1;
+    let welford_tol = 8.0 * nf * U * m.max_abs + (nf / 2.0 + 2.0) * d1;
+    let r_un = max_dev(&z, &m) / s;
+    let b_pop = bound_nofloor(&m, &m) + 4.0 * nf * d2 * (1.0 + 2.0 * r_un);
+    let b_smp = if n > 1 { b_pop * nf / (nf - 1.0) } else { f64::NAN };
+    let (var_pop, var_smp) = (m.m2 / nf, m.m2 / (nf - 1.0));
+    let std_tol = |v: f64, b: f64| (b / v.sqrt()).min(b.sqrt()) + 4.0 * U * v.sqrt();
+    let (mut rmin, mut rmax, mut imin, mut imax) = (x[0], x[0], 0usize, 0usize);
+    for (i, &v) in x.iter().enumerate() {
+        if v < rmin {
+            rmin = v;
+            imin = i;
+        }
+        if v > rmax {
+            rmax = v;
+            imax = i;
+        }
+    }
+    let divs: Vec<usize> = (1..=n.min(64)).filter(|d| n % d == 0).collect();
+    let r = *rng.choose(&divs);
+    let shape = if rng.bool() { (r, n / r) } else { (n / r, r) };
+    for api in ["free", "vector", "matrix"] {
+        let regime = format!("{}:{}", api, class);
+        rep.case(&regime);
+        let ctx = |stat: &str, obs: Value, exp: Value, extra: Value| json!({"api": api, "stat": stat, "class": class, "n": n, "matrix_shape": if api == "matrix" { json!([shape.0, shape.1]) } else { json!(null) }, "data": jf(x), "observed": obs, "expected": exp, "detail": extra,
+            "note": "reference computed on 2^700 * data (exact map); tolerances are in those units and include the stated underflow allowance"});
+        let st1 = match call_api(api, x, shape) {
+            Err(msg) => {
+                rep.check("C08.no_panic", &regime, false, || ctx("*", json!({"panic": msg}), json!("values"), json!(null)));
+                continue;
+            }
+            Ok(v) => v,
+        };
+        rep.check("C08.no_panic", &regime, true, || json!(null));
+        rep.note_add("library_calls", if api == "free" { 10.0 } else { 9.0 });
+        let mut means = vec![("mean", st1.mean, mean_tol)];
+        if let Some(w) = st1.welford_mean {
+            means.push(("welford_mean", w, welford_tol));
+        }
+        for (name, v, tol) in means {
+            let err = (Dd::new(v * s) - m.mean).f().abs();
+            rep.note_max(&format!("worst_ratio.subnormal.{}", name), if err.is_nan() { f64::INFINITY } else { err / tol });
+            rep.check(&format!("C08.{}", name), &regime, err <= tol, || ctx(name, jnum(v), json!(m.mean.f() / s), json!({"abs_err_scaled": jnum(err), "tol_scaled": tol, "err_in_units_of_2^-1074": jnum(err / d1)})));
+        }
+        let mut vs = vec![("var", st1.var, var_pop, b_pop, false), ("std", st1.std, var_pop, b_pop, true)];
+        if n >= 2 {
+            vs.push(("sample_var", st1.sample_var, var_smp, b_smp, false));
+            vs.push(("sample_std", st1.sample_std, var_smp, b_smp, true));
+        }
+        for (name, v, refvar, b, is_sd) in vs {
+            let (got, want, tol) = if is_sd { (v * s, refvar.sqrt(), std_tol(refvar, b)) } else { (v * s * s, refvar, b) };
+            let err = (got - want).abs();
+            rep.note_max(&format!("worst_ratio.subnormal.{}", name), if err.is_nan() { f64::INFINITY } else { err / tol });
+            rep.check(&format!("C08.{}", name), &regime, err <= tol, || ctx(name, jnum(v), json!({"scaled_by_2^700 (sd) / 2^1400 (var)": want}), json!({"observed_scaled": jnum(got), "abs_err_scaled": jnum(err), "tol_scaled": tol})));
+        }
+        rep.check("C08.min", &regime, st1.min == rmin, || ctx("min", jnum(st1.min), jnum(rmin), json!(null)));
+        rep.check("C08.max", &regime, st1.max == rmax, || ctx("max", jnum(st1.max), jnum(rmax), json!(null)));
+        rep.check("C08.argmin", &regime, st1.argmin == imin, || ctx("argmin", json!(st1.argmin), json!(imin), json!({"min": jnum(rmin)})));
+        rep.check("C08.argmax", &regime, st1.argmax == imax, || ctx("argmax", json!(st1.argmax), json!(imax), json!({"max": jnum(rmax)})));
+    }
+    rep.distinct(Hasher::new().s("sub-single").fs(x).finish(), n >= 2 && rmin != rmax);
+    rep.sample(|| json!({"kind": "single", "class": class, "n": n, "data_head": jf(&x[..n.min(6)]), "ref_mean": m.mean.f() / s}));
+}
+
+fn gen_sub_pair(rng: &mut Rng, class: &str, n: usize) -> (Vec<f64>, Vec<f64>) {
+    let tiny = |rng: &mut Rng| {
+        let c = *rng.choose(&["all-subnormal", "all-subnormal", "subnormal+zeros", "subnormal+min-normal"]);
+        gen_tiny(rng, c, n)
+    };
+    // an ordinary partner: independent of x, or following it (so that the covariance is far from 0)
+    let partner = |rng: &mut Rng, x: &[f64], scale: f64| -> Vec<f64> {
+        match rng.usize(0, 3) {
+            0 => gen_data(rng, "gaussian", n).iter().map(|v| v * scale).collect(),
+            1 => {
+                let c = *rng.choose(&["small-int", "ties", "sorted"]);
+                gen_data(rng, c, n).iter().map(|v| v * scale).collect()
+            }
+            _ => {
+                let top = x.iter().fold(0.0f64, |a, v| a.max(v.abs())).max(D_MIN);
+                let (a, c, e) = (rng.range(-3.0, 3.0), rng.range(0.5, 4.0) * if rng.bool() { 1.0 } else { -1.0 }, rng.range(0.0, 1.0));
+                x.iter().map(|&v| scale * (a + c * (v / top) + e * rng.normal())).collect()
+            }
+        }
+    };
+    match class {
+        "tiny*tiny" => (tiny(rng), tiny(rng)),
+        "tiny*ordinary" => {
+            let x = tiny(rng);
+            let y = partner(rng, &x, 1.0);
+            (x, y)
+        }
+        "ordinary*tiny" => {
+            let y = tiny(rng);
+            let x = partner(rng, &y, 1.0);
+            (x, y)
+        }
+        "tiny*large" => {
+            let x = tiny(rng);
+            let sc = (10.0f64).powi(rng.int(20, 100) as i32);
+            let y = partner(rng, &x, sc);
+            if rng.bool() { (x, y) } else { (y, x) }
+        }
+        "mixed*tiny" => {
+            let x = gen_sub_in_ordinary(rng, n);
+            let y = tiny(rng);
+            if rng.bool() { (x, y) } else { (y, x) }
+        }
+        _ => (gen_sub_in_ordinary(rng, n), gen_sub_in_ordinary(rng, n)),
+    }
+}
+
+/// the four covariance algorithms on a pair of which at least one side is tiny
+fn check_tiny_pair(rep: &mut Report, class: &str, x: &[f64], y: &[f64]) {
+    let n = x.len();
+    let nf = n as f64;
+    let is_tiny = |v: &[f64]| v.iter().all(|a| a.abs() < TINY_MAX);
+    let (kx, ky) = (if is_tiny(x) { TINY_K } else { 0 }, if is_tiny(y) { TINY_K } else { 0 });
+    let (s, t) = ((2.0f64).powi(kx), (2.0f64).powi(ky));
+    let zx: Vec<f64> = x.iter().map(|&v| v * s).collect();
+    let zy: Vec<f64> = y.iter().map(|&v| v * t).collect();
+    let regime = format!("pair:{}", class);
+    rep.case(&regime);
+    let (mx, my) = (moments(&zx, false), moments(&zy, false));
+    let co = comoment(&zx, &zy, &mx, &my, false);
+    let d2 = D_MIN * s * t;
+    let (rx, ry) = (max_dev(&zx, &mx) / s, max_dev(&zy, &my) / t);
+    let allowance = 4.0 * nf * d2 * (1.0 + rx + ry);
+    let b_pop = bound_nofloor(&mx, &my) + allowance;
+    let b_smp = b_pop * nf / (nf - 1.0);
+    let ctx = |obs: Value, exp: Value, extra: Value| json!({"class": class, "n": n, "x": jf(x), "y": jf(y), "observed": obs, "expected_scaled": exp, "oracle": "double-double on (2^kx x, 2^ky y)", "kx": kx, "ky": ky, "detail": extra});
+    let c = match cov4(x, y) {
+        Err(msg) => {
+            rep.check("C08.cov.no_panic", &regime, false, || ctx(json!({"panic": msg}), json!("values"), json!(null)));
+            return;
+        }
+        Ok(c) => c,
+    };
+    rep.note_add("library_calls", 4.0);
+    let up = |v: f64| v * s * t;
+    for a in ALGOS {
+        let (want, tol) = if a == "twopass_pop" { (co / nf, b_pop) } else { (co / (nf - 1.0), b_smp) };
+        let v = c.get(a);
+        let err = (up(v) - want).abs();
+        rep.note_max(&format!("worst_ratio.subnormal.cov.{}", a), if err.is_nan() { f64::INFINITY } else { err / tol });
+        rep.note_max(&format!("info.subnormal.cov_error_over_underflow_allowance_alone.{}", a), if err.is_nan() { f64::INFINITY } else { err / allowance });
+        rep.check(&format!("C08.cov.{}", a), &regime, err <= tol, || ctx(jnum(v), json!(want), json!({"algorithm": a, "observed_scaled": jnum(up(v)), "abs_err_scaled": jnum(err), "tol_scaled": tol, "underflow_allowance_scaled": allowance, "all_four": c.js()})));
+    }
+    for (a, v) in [("twopass_pop", c.pop * nf / (nf - 1.0)), ("onepass", c.onepass), ("online", c.online)] {
+        let err = (up(v) - up(c.smp)).abs();
+        let tol = 2.0 * b_smp + 4.0 * U * up(c.smp).abs();
+        rep.check("C08.cov.agree", &format!("{}~twopass_sample@{}", a, class), err <= tol, || ctx(c.js(), json!("equal after the n/(n-1) factor"), json!({"pair": a, "abs_diff_scaled": jnum(err), "tol_scaled": tol})));
+    }
+    match cov4(y, x) {
+        Ok(cs) => {
+            rep.note_add("library_calls", 4.0);
+            for a in ALGOS {
+                let err = (up(c.get(a)) - up(cs.get(a))).abs();
+                let tol = 2.0 * if a == "twopass_pop" { b_pop } else { b_smp };
+                rep.check("C08.cov.symmetry", &format!("{}@{}", a, class), err <= tol, || ctx(json!({"cov(x,y)": jnum(c.get(a)), "cov(y,x)": jnum(cs.get(a))}), json!("equal"), json!({"algorithm": a, "tol_scaled": tol})));
+            }
+        }
+        Err(msg) => {
+            rep.check("C08.cov.no_panic", &regime, false, || ctx(json!({"panic": msg}), json!("values"), json!(null)));
+        }
+    }
+    rep.distinct(Hasher::new().s("sub-pair").fs(x).fs(y).finish(), mx.m2 > 0.0 && my.m2 > 0.0);
+    rep.sample(|| json!({"kind": "pair", "class": class, "n": n, "x_head": jf(&x[..n.min(5)]), "y_head": jf(&y[..n.min(5)]), "ref_sample_cov_scaled": co / (nf - 1.0), "kx": kx, "ky": ky, "library": c.js()}));
+}
+
+const SUB_EDGES: [&str; 3] = ["subnormal", "subnormal-to-normal", "zero-and-subnormal"];
+
+/// strictly increasing bin edges inside / across the subnormal range
+fn subnormal_edges(rng: &mut Rng, kind: usize) -> Vec<f64> {
+    let ne = rng.usize(3, 24);
+    let mut e: Vec<f64> = match kind {
+        0 => (0..ne).map(|_| subnormal_mag(rng) * if rng.chance(0.3) { -1.0 } else { 1.0 }).collect(),
+        1 => (0..ne).map(|i| if i % 2 == 0 { subnormal_mag(rng) } else { f64::MIN_POSITIVE * rng.log_range(1.0, 1e6) } * if rng.chance(0.2) { -1.0 } else { 1.0 }).collect(),
+        _ => {
+            let mut v: Vec<f64> = (0..ne - 1).map(|_| rng.int(1, 40) as f64 * D_MIN * if rng.chance(0.3) { -1.0 } else { 1.0 }).collect();
+            v.push(0.0);
+            if rng.bool() {
+                v.push(rng.range(0.5, 2.0));
+            }
+            v
+        }
+    };
+    e.sort_by(|a, b| a.partial_cmp(b).unwrap());
+    e.dedup();
+    if e.len() < 2 {
+        e.push(e[0] + 1.0);
+    }
+    e
+}
+
 pub fn run(cfg: &Cfg, rep: &mut Report) {
-    rep.rule = "data sets of length 1..1e4 (>= 2 for sample statistics and pairs) from 8 classes (small integers, gaussian, offset with mean/sd 1e2..1e8, constant, sorted, reversed, ties, signed zeros), each pushed through the free functions, the Vector methods and the Matrix methods (random r x c shape); pairs from 8 classes (incl. identical and constant) through the four covariance algorithms; grid data with exact shifts up to 8e9 and exact 2^k scalings for the metamorphic relations; uniform (dyadic and linspace) and non-uniform bin edges (2..501 edges); one-point data sets (values 5e-324..1e300, signed zeros) through every population statistic and API with the definition as oracle, length 2 forced for the sample statistics; grid data times 2^+-(300..480) (unit spread, spreads 2^-20..2^-36, offset with spread/mean 2^-28..2^-38) for homogeneity of every statistic. one evaluation = one data set through one API (9-24 library calls, see notes.library_calls). non-trivial = length >= 2 and not constant (hist: >= 2 bins); distinct by bits of the data; near-tie data sets (values 1..4 ulp inside the maximum / minimum placed before and after it) through every API; structured bin edges (geometric progressions with ratios 2, 10, 3, 1.5, ..., their negatives, arithmetic, geometrically shrinking widths, mixed, integer sequences); block-edge lengths: every length m-1, m, m+1 for m a multiple of 64 (labelled by the largest power of two <= 2^13 dividing m) or of 500 inside 2..1e4, and the ends 2, 3, 9998, 9999, 1e4 of the range, each with one data set (6 classes) through every statistic and API and one pair (7 classes) through the four covariance algorithms".into();
+    rep.rule = "data sets of length 1..1e4 (>= 2 for sample statistics and pairs) from 8 classes (small integers, gaussian, offset with mean/sd 1e2..1e8, constant, sorted, reversed, ties, signed zeros), each pushed through the free functions, the Vector methods and the Matrix methods (random r x c shape); pairs from 8 classes (incl. identical and constant) through the four covariance algorithms; grid data with exact shifts up to 8e9 and exact 2^k scalings for the metamorphic relations; uniform (dyadic and linspace) and non-uniform bin edges (2..501 edges); one-point data sets (values 5e-324..1e300, signed zeros) through every population statistic and API with the definition as oracle, length 2 forced for the sample statistics; grid data times 2^+-(300..480) (unit spread, spreads 2^-20..2^-36, offset with spread/mean 2^-28..2^-38) for homogeneity of every statistic. one evaluation = one data set through one API (9-24 library calls, see notes.library_calls). non-trivial = length >= 2 and not constant (hist: >= 2 bins); distinct by bits of the data; near-tie data sets (values 1..4 ulp inside the maximum / minimum placed before and after it) through every API; structured bin edges (geometric progressions with ratios 2, 10, 3, 1.5, ..., their negatives, arithmetic, geometrically shrinking widths, mixed, integer sequences); block-edge lengths: every length m-1, m, m+1 for m a multiple of 64 (labelled by the largest power of two <= 2^13 dividing m) or of 500 inside 2..1e4, and the ends 2, 3, 9998, 9999, 1e4 of the range, each with one data set (6 classes) through every statistic and API and one pair (7 classes) through the four covariance algorithms; data containing subnormal values: all-subnormal (k * 2^-1074, k in 1..2^52, both signs / one sign / a narrow band / k <= 8), subnormal + signed zeros, subnormal + the smallest normal numbers, subnormal entries inside ordinary data, through every statistic and API; pairs tiny x tiny, tiny x ordinary (either order; independent or following x), tiny x large (1e20..1e100), mixed x tiny, mixed x mixed through the four covariance algorithms; bin edges inside and across the subnormal range".into();
     rep.assume("all data finite; empty input and sample statistics of a single value are outside the quantifier");
     rep.assume("'rounding-error bound of a numerically stable algorithm' is read as B = 16[n u sx sy + n u (sx|my| + sy|mx|) + (n u)^2 |mx my|] for (co)variances (Welford's own n·u·kappa bound is the middle term; DESIGN's tighter c·n·eps·(s^2 + eps·mu^2) is recorded under info.worst_ratio_vs_DESIGN_formula.* for comparison), 8 n u max|x| for means (1 ulp for `mean` of small integers), B/sd resp. sqrt(B) for standard deviations");
     rep.assume("min/max are compared by value (either zero accepted for +-0); argmin/argmax = first index whose value equals the extreme");
@@ -1200,6 +1556,65 @@ pub fn run(cfg: &Cfg, rep: &mut Report) {
                 rep.require(&format!("{}:blockedge:{}", api, l), 1);
             }
         }
+    }
+    // data containing subnormal values (streams 11..13)
+    rep.assume("subnormal data: tiny data sets (every |x| < 2^-1000) are judged after the exact multiplication by 2^700 (reference and tolerance in those units); tolerance = B without its floor + an absolute underflow allowance in units of d = 2^-1074: 2 d for mean, (n/2 + 2) d for welford_mean, 4 n d for (sample) variance, 4 n d (1 + max|x_i - mean x| + max|y_i - mean y|) for the covariances (each operation with a subnormal result rounds by <= d/2; a running mean of tiny data carries <= n d/4, which is multiplied by deviations of the other variable); data with ordinary values keep the ordinary reference and bound");
+    let n_sub = cfg.pick(640, 9600, 8);
+    par_cases(cfg, rep, 11, n_sub, |i, rng, rep| {
+        let class = SUB_CLASSES[i % SUB_CLASSES.len()];
+        let n = match (i / SUB_CLASSES.len()) % 8 {
+            3 => 1,
+            5 => 2.min(maxlen),
+            _ => gen_len(rng, maxlen.min(3000), 1),
+        };
+        let x = gen_sub_data(rng, class, n);
+        rep.seen(if x.iter().all(|v| is_subnormal(*v)) { "subnormal:all" } else { "subnormal:some" }, 1);
+        if x.iter().any(|v| *v == D_MIN || *v == -D_MIN) {
+            rep.seen("subnormal:contains-5e-324", 1);
+        }
+        if class == "subnormal+ordinary" {
+            check_single(rep, class, &x, rng);
+        } else {
+            check_tiny_single(rep, class, &x, rng);
+        }
+    });
+    let n_subpair = cfg.pick(600, 9600, 6);
+    par_cases(cfg, rep, 12, n_subpair, |i, rng, rep| {
+        let class = SUB_PAIR_CLASSES[i % SUB_PAIR_CLASSES.len()];
+        let n = if (i / SUB_PAIR_CLASSES.len()) % 8 == 5 { 2 } else { gen_len(rng, maxlen.min(3000), 2) };
+        let (x, y) = gen_sub_pair(rng, class, n);
+        if x.iter().chain(y.iter()).any(|v| is_subnormal(*v)) {
+            rep.seen("subnormal:pair-with-subnormal", 1);
+        }
+        if class == "mixed*mixed" {
+            rep.case("pair:mixed*mixed");
+            check_pair_in(rep, "subnormal+ordinary", &x, &y, Some("subnormal"));
+        } else {
+            check_tiny_pair(rep, class, &x, &y);
+        }
+    });
+    let n_subedges = cfg.pick(90, 900, 3);
+    par_cases(cfg, rep, 13, n_subedges, |i, rng, rep| {
+        let kind = i % SUB_EDGES.len();
+        let e = subnormal_edges(rng, kind);
+        hist_check_edges(rep, &format!("edges:{}", SUB_EDGES[kind]), &e, "hist-subnormal", "worst_ratio.hist_bin_centers.subnormal");
+    });
+    for api in ["free", "vector", "matrix"] {
+        for c in SUB_CLASSES {
+            rep.require(&format!("{}:{}", api, c), 1);
+        }
+    }
+    for c in SUB_PAIR_CLASSES {
+        rep.require(&format!("pair:{}", c), 1);
+    }
+    for k in SUB_EDGES {
+        rep.require(&format!("hist:edges:{}", k), 1);
+    }
+    rep.require("subnormal:all", 1);
+    rep.require("subnormal:pair-with-subnormal", 1);
+    if !cfg.lite {
+        rep.require("subnormal:some", 1);
+        rep.require("subnormal:contains-5e-324", 1);
     }
     for api in ["free", "vector", "matrix"] {
         rep.require(&format!("{}:near-ties", api), 1);
